@@ -52,8 +52,23 @@ pub fn strict_known() -> bool {
 /// choice list), so that the driver can replay it or, if the class is not
 /// listed as known, report it as a violation.
 pub fn note_known(class: &str, site: &str, msg: &str) {
-    let key: &'static str = Box::leak(format!("KNOWN:{class}").into_boxed_str());
-    cmhost::with(|h| {
+    cmhost::with(|h| note_known_h(h, class, site, msg))
+}
+static mut KNOWN_KEYS: Vec<(String, &'static str)> = Vec::new();
+/// As `note_known`, for callers that already hold the host.
+#[allow(static_mut_refs)]
+pub fn note_known_h(h: &mut Host, class: &str, site: &str, msg: &str) {
+    let key: &'static str = unsafe {
+        match KNOWN_KEYS.iter().find(|(c, _)| c == class) {
+            Some((_, k)) => k,
+            None => {
+                let k: &'static str = Box::leak(format!("KNOWN:{class}").into_boxed_str());
+                KNOWN_KEYS.push((class.to_string(), k));
+                k
+            }
+        }
+    };
+    {
         h.fault(key);
         unsafe {
             if !KNOWN_PRINTED.iter().any(|c| c == class) {
@@ -73,7 +88,7 @@ pub fn note_known(class: &str, site: &str, msg: &str) {
                 );
             }
         }
-    });
+    }
 }
 
 pub fn new_host(fam: &str, seed: u64, idx: u64, ch: Choices, trace: bool) -> Host {
@@ -163,8 +178,9 @@ fn main() {
             if trace_all {
                 println!("TRACE-TEXT-HASH {text_hash:016x}");
             }
+            let profile = if cfg!(debug_assertions) { "native" } else { "release" };
             println!(
-                "SUMMARY {{\"family\":\"{fam}\",\"feature_set\":\"native\",\"start\":{start},\"runs\":{count},\"steps\":{steps},\"callbacks\":0,\"distinct_traces\":{},\"distinct_nontrivial\":{},\"states\":0,\"leak_check_skipped\":0,\"wall_s\":{:.3},\"faults\":{{{}}},\"runs_with_fault\":{{{}}},\"samples\":[{}]}}",
+                "SUMMARY {{\"family\":\"{fam}\",\"feature_set\":\"{profile}\",\"start\":{start},\"runs\":{count},\"steps\":{steps},\"callbacks\":0,\"distinct_traces\":{},\"distinct_nontrivial\":{},\"states\":0,\"leak_check_skipped\":0,\"wall_s\":{:.3},\"faults\":{{{}}},\"runs_with_fault\":{{{}}},\"samples\":[{}]}}",
                 dh.len(),
                 dn.len(),
                 t0.elapsed().as_secs_f64(),
